@@ -106,6 +106,66 @@ void ctx_body() {
 VMC_HARNESS(evt_v1_ctx, "C16,C11") { ctx_body<v1::async_manual_reset_event>(); }
 VMC_HARNESS(evt_v2_ctx, "C16,C11") { ctx_body<v2::async_manual_reset_event>(); }
 
+
+// ---- operation sequences on one thread (v2 event: the latchable waiter list with removals in the middle) -------------
+// Every sequence of up to arg0 operations over { W: start one more async_wait (at most 4), Ck: request stop on waiter k,
+// S: set(), R: reset() }.  Reference: a bool + the set of parked waiters.  A wait started while set completes at once; a
+// cancelled parked wait completes with done at the stop request; set() completes every parked wait with value; reset()
+// changes nothing for completed waits.  At the end set() is called once more: nobody may remain parked.
+template <class Evt, bool Stoppable>
+static void event_ops_body() {
+  int nops = vmcrt::arg(0, 5);
+  Evt evt;
+  constexpr int MAXW = 4;
+  RcvState rs[MAXW]; inplace_stop_source src[MAXW];
+  for (auto& r : rs) r.props = "C16,C01";
+  using Op = decltype(unifex::connect(evt.async_wait(), kit::Rcv<>{&rs[0], src[0].get_token()}));
+  struct Holder { Op op; Holder(Evt& e, kit::Rcv<> r) : op(unifex::connect(e.async_wait(), std::move(r))) {} };
+  std::unique_ptr<Holder> ops[MAXW];
+  bool is_set = false; std::vector<int> parked; int nw = 0; char expect[MAXW] = {'?', '?', '?', '?'};
+  std::string trace;
+  auto check_state = [&](const char* when) {
+    if (evt.ready() != is_set) vmcrt::fail("C16", "ready", (std::string(when) + ": ready() disagrees with the reference; ops: " + trace).c_str());
+    for (int i = 0; i < nw; ++i) {
+      bool p = std::find(parked.begin(), parked.end(), i) != parked.end();
+      if (p && rs[i].count != 0) vmcrt::fail("C16,C01", "early-completion", (std::string(when) + ": waiter " + std::to_string(i) + " completed although the event is not set; ops: " + trace).c_str());
+      if (!p && rs[i].count != 1) vmcrt::fail("C16,C01", "stranded", (std::string(when) + ": waiter " + std::to_string(i) + " should have completed (event set / cancelled); ops: " + trace).c_str());
+      if (!p && rs[i].how != expect[i]) vmcrt::fail("C16", "bad-channel", (std::string(when) + ": waiter " + std::to_string(i) + " completed with " + rs[i].how + ", reference says " + expect[i] + "; ops: " + trace).c_str());
+    }
+  };
+  for (int step = 0; step <= nops; ++step) {
+    std::vector<std::pair<char, int>> menu;
+    if (step == nops) menu.push_back({'S', 0});   // final set(): everybody must be released
+    else {
+      if (nw < MAXW) menu.push_back({'W', nw});
+      menu.push_back({'S', 0}); menu.push_back({'R', 0});
+      if (Stoppable) for (int id : parked) menu.push_back({'C', id});
+    }
+    auto [op, id] = menu[menu.size() > 1 ? vmc::choose((int)menu.size()) : 0];
+    trace += op; if (op == 'W' || op == 'C') trace += std::to_string(id); trace += ' ';
+    if (op == 'W') {
+      ops[id] = std::make_unique<Holder>(evt, kit::Rcv<>{&rs[id], src[id].get_token()});
+      ++nw;
+      if (is_set) expect[id] = 'V'; else parked.push_back(id);
+      unifex::start(ops[id]->op);
+    } else if (op == 'S') {
+      is_set = true; for (int w : parked) expect[w] = 'V'; parked.clear();
+      evt.set();
+    } else if (op == 'R') {
+      is_set = false;
+      evt.reset();
+    } else {
+      parked.erase(std::find(parked.begin(), parked.end(), id)); expect[id] = 'D';
+      src[id].request_stop();
+    }
+    check_state("after op");
+  }
+  for (int i = 0; i < nw; ++i) ops[i].reset();
+  vmc::note(std::to_string(nw) + "w");
+}
+VMC_SEQ_HARNESS(evt_v2_ops, "C16,C01,C19") { event_ops_body<v2::async_manual_reset_event, true>(); }
+VMC_SEQ_HARNESS(evt_v1_ops, "C16,C01") { event_ops_body<v1::async_manual_reset_event, false>(); }
+
 // auto-reset event: producer set() x2 (+ optional set_done) ∥ consumer next(), next() on a loop scheduler
 VMC_HARNESS(evt_auto, "C16,C13,C01") {
   int with_done = vmcrt::arg(0, 0);
